@@ -573,7 +573,7 @@ func main() {
 	runner.Main(runner.Config{
 		Property:  "C09",
 		Technique: "explicit-state bounded-exhaustive exploration of all operation sequences on the real LRUCache, lock-step against a reference model",
-		Rule: "all sequences of length d over {Store (fresh value = step number),Load,Delete}(k in c+1 colliding keys)+Len on valid.NewLRU(c), c=0..4 (+8), and for c=1..3 additionally StoreSame(k) (a value that is constant per key, so re-storing an equal value is covered) a removal callback that panics for one key (operations recovered), and a key alphabet of unusual keys (nil, 0, \"\", struct{}{}, 1.5), from empty, pre-filled and warm-up states around the map-rebuild threshold, plus 105 structured long runs (thousands of operations, capacities 16, 64 and the package default 512) crossing the rebuild threshold several times, " +
+		Rule: "all sequences of length d over {Store (fresh value = step number),Load,Delete}(k in c+1 colliding keys)+Len on valid.NewLRU(c), c=0..4 (+8), and for c=1..3 additionally StoreSame(k) (a value that is constant per key, so re-storing an equal value is covered) a removal callback that panics for one key (operations recovered) together with Load / Delete / Store on unhashable keys (recovered; the cache must still answer), and a key alphabet of unusual keys (nil, 0, \"\", struct{}{}, 1.5), from empty, pre-filled and warm-up states around the map-rebuild threshold, plus 105 structured long runs (thousands of operations, capacities 16, 64 and the package default 512) crossing the rebuild threshold several times, " +
 			"with and without removal callback; every step compared with a slice-based LRU model; non-trivial = sequences containing an eviction whose victim differs between LRU and FIFO order",
 		Assumptions: []string{"reference model internal/lrumodel is the specification of C09", "keys are hashable strings; callbacks do not re-enter the cache"},
 		Run:         run,
